@@ -107,13 +107,21 @@ class Tree:
         return "[" + "; ".join(ents) + "]"
 
 
+OTHER_IMPORTS = ["import rust::serde_json", "from rust::std::time import Instant, Duration", "import rust::serde_json::Value as V",
+                 'import python "requests" as pyreq']
+
+
 def imp_term(rec):
     k, ab, lv, segs = rec
+    if k == "O":      # rust / python imports: no resolver follows them (the model's `skip` arm)
+        return "(I KFrom false 0 [])"
     return "(I %s %s %d %s)" % ("KModule" if k == "M" else "KFrom", cb(ab), lv, zl([code(s) for s in segs]))
 
 
 def import_text(rng, k, ab, lv, segs, item="zz", alias=None, style=None):
     """One of the equivalent spellings of an import record."""
+    if k == "O":
+        return OTHER_IMPORTS[lv % len(OTHER_IMPORTS)]
     style = style if style is not None else rng.randrange(4)
     sep = "::" if style & 1 else "."
     pre = ""
@@ -127,6 +135,8 @@ def import_text(rng, k, ab, lv, segs, item="zz", alias=None, style=None):
         else:
             pre = ("super" + sep) * lv
     body = pre + sep.join(segs)
+    if not segs:
+        body = body[:-len(sep)] if body.endswith(sep) else body      # `import super`, `from .. import x`
     if k == "M":
         return "import " + body + (" as " + alias if alias else "")
     return "from " + body + " import " + item
@@ -233,9 +243,9 @@ def gen_tree_A(rng, scratch, k):
                         if rng.random() < 0.3:
                             dirs.append(d1 + "/" + d2 + "/" + d3)
     for d in dirs:
-        for stem in SEGN + ["mod", "__init__", "main"]:
+        for stem in SEGN + ["mod", "__init__", "main", "a_b"]:
             for e in ("incn", "incan"):
-                pr = {"mod": 0.3, "__init__": 0.15, "main": 0.1}.get(stem, 0.3) * (0.5 if e == "incan" else 1.0)
+                pr = {"mod": 0.3, "__init__": 0.15, "main": 0.1, "a_b": 0.15}.get(stem, 0.3) * (0.5 if e == "incan" else 1.0)
                 if rng.random() < pr:
                     t.add(os.path.join(d, stem + "." + e), "pub def zz() -> int:\n    return 1\n")
     for d in dirs:
@@ -249,13 +259,51 @@ def gen_tree_A(rng, scratch, k):
 def gen_import(rng):
     k = rng.choice("MF")
     r = rng.random()
-    ab = r < 0.15
-    lv = 0 if ab or r < 0.6 else rng.choice([1, 1, 2, 3])
+    if r < 0.04:
+        return ("O", False, rng.randrange(len(OTHER_IMPORTS)), [])
+    ab = r < 0.17
+    lv = 0 if ab or r < 0.6 else rng.choice([1, 1, 2, 3, 3, 5, 9, 17])     # 9, 17: above the file-system root
     n = rng.choice([1, 1, 2, 2, 3])
-    segs = [rng.choice(SEGN + (["mod"] if rng.random() < 0.1 else []) + (["main"] if rng.random() < 0.05 else [])) for _ in range(n)]
+    pool = SEGN + (["mod"] if rng.random() < 0.1 else []) + (["main"] if rng.random() < 0.05 else []) + (["a_b"] if rng.random() < 0.1 else [])
+    segs = [rng.choice(pool) for _ in range(n)]
     if rng.random() < 0.03:
         segs[0] = "std"
+    if lv and rng.random() < 0.06:
+        segs = []                      # `import super` / `from .. import x`: nothing to resolve
     return (k, ab, lv, segs)
+
+
+def arm(chk, name, n=1):
+    h = chk.coverage.setdefault("model_arm_hits", {})
+    h[name] = h.get(name, 0) + n
+
+
+def _arms_resolve(chk, t, c, rec, results, flags):
+    """which arm of each modelled resolver this case went through (read off the model's own result)"""
+    k, ab, lv, segs = rec
+    skip = k == "O" or not segs or segs[0] == "std"
+    depth = len(t.absdir(c["idir"]))
+    tgt = "skip" if skip else ("target:crate" if ab else "target:levels=0" if lv == 0 else "target:levels<=depth" if lv <= depth else "target:levels>depth(stuck at root)")
+    arm(chk, "target_dir/" + tgt)
+    arm(chk, "msegs/" + ("from" if k != "M" else "module,1 segment" if len(segs) <= 1 else "module,drop last"))
+    for name, r in results.items():
+        if skip:
+            a = "skip:" + ("other-kind" if k == "O" else "empty" if not segs else "std")
+        elif not r:
+            a = "none"
+        else:
+            ext, stem = r[1], r[2]
+            last = (segs[:-1] if (k == "M" and len(segs) > 1 and name != "rip") else segs)[-1]
+            if stem == code("mod") and last != "mod":
+                a = "mod." + ("incn" if ext == 0 else "incan")
+            elif stem == code("__init__") and last != "__init__":
+                a = "__init__.incn"
+            else:
+                a = "file." + ("incn" if ext == 0 else "incan")
+        arm(chk, name + "/" + a)
+    for nm, f in zip(("k_multi", "k_modonly", "k_nested", "k_mr_only"), flags):
+        arm(chk, nm + ("/true" if f else "/false"))
+    arm(chk, "rl/" + ("absolute entry" if c["ab"] else "relative entry"))
 
 
 def part_A(chk, binary, scratch, res_broken):
@@ -336,7 +384,7 @@ def part_A(chk, binary, scratch, res_broken):
         t = c["tree"]
         o_imp, o_rip, o_cli, o_mr = out[4 * n:4 * n + 4]
         rec = c["rec"]
-        want_imp = "K %s %d %d %s" % (rec[0], 1 if rec[1] else 0, rec[2], ".".join(rec[3]))
+        want_imp = "K %s %d %d %s" % (rec[0], 1 if rec[1] else 0, rec[2], ".".join(rec[3])) if rec[0] != "O" else "K O 0 0"
         desc = {"tree": t.name, "import": c["text"], "entry_dir": c["edir"], "import_in_dir": c["idir"],
                 "cwd": c["cwd"], "entry": c["entry"], "files": sorted(f for f in t.files if not re.search(r"/?z[qn]\d+\.", f)),
                 "cargo": sorted(t.cargo), "dirs": sorted(t.dirs)}
@@ -371,6 +419,7 @@ def part_A(chk, binary, scratch, res_broken):
         m_cli, m_rip, m_mr, m_spec, flags = model[n]
         m_cli, m_rip, m_mr, m_spec = list(m_cli), list(m_rip), list(m_mr), list(m_spec)
         f_multi, f_modonly, f_nested, f_mronly = [bool(x) for x in flags]
+        _arms_resolve(chk, t, c, rec, {"cli_resolve": m_cli, "rip": m_rip, "mr_resolve": m_mr, "spec_resolve": m_spec}, flags)
         key = "%s abs=%d lv=%d n=%d nested=%d rel=%d" % (rec[0], rec[1], rec[2], len(rec[3]), c["nested"], not c["ab"])
         dist[key] = dist.get(key, 0) + 1
         chk.count_case((t.name, c["text"], c["edir"], c["idir"], c["cwd"]), nontrivial=bool(r_rip or (isinstance(r_cli, list) and r_cli)))
